@@ -25,6 +25,12 @@ var propTable = map[string]propMeta{
 		NotCovered: "pooled package-level wrappers and writers not yet under contract"},
 	"C20": {Level: "other", Explanation: "Safety sweep: every evaluation function of the asm package is executed symbolically with thin contracts for arbitrary argument lists (argument evaluation opaque); every implicit runtime-fault obligation is discharged; explicit panic(error) is the only way to reject arguments.",
 		NotCovered: "determinism, String()/Simplify() rebuild, documented semantics of each function, $.src non-interference"},
+	"C04": {Level: "other", Explanation: "String encoder core: AppendJSONString verified for all strings and both htmlSafe values (safety, pending-segment-is-plain invariant, growth/ownership) plus closed table lemmas over the real jMap constant.",
+		NotCovered: "emitted escape bytes themselves (only the copied-through segments and the table are specified), container writers, options, WriteLimit streaming, pretty writer, round trip"},
+	"C10": {Level: "other", Explanation: "AppendSENString verified for all strings: in-place unquote is memory safe; a bare result implies length limit, allowed first byte and token bytes only; table-compatibility lemmas between ojg.senMap and sen.valueMap/sen.tokenMap.",
+		NotCovered: "SEN parser behaviour, writers and options, numbers; known findings: reserved words and leading signs are written bare"},
+	"C14": {Level: "other", Explanation: "jp.AppendString and Child.tokenOk verified with table lemmas over jp.jMap and jp.tokenMap.",
+		NotCovered: "parse(String(x)) == x, script and equation parentheses, evaluation equality"},
 	"C02": {Level: "other", Explanation: "Number accumulation contracts of gen.Number: exactness of the uint64 accumulation (no wrap-around for any digit count), no digit lost once the big buffer is in use, plain integers that fit int64 stay in the integer accumulator.",
 		NotCovered: "parsers' inline digit loops, AddFrac/AddExp/AsNum, strings and events not yet under contract"},
 }
